@@ -108,6 +108,11 @@ def run_c12(ctx):
             drv_edit.do_call(sh, st["act"]["op"], st["act"]["a"])
         systems.append(sh)
     res.extra["history_built_systems"] = len(hb) + len(mb)
+    # hand-built systems and hand-built edit histories (harness/scenarios.py)
+    import scenarios
+    for name, s_or_exc, kw in scenarios.build_all() + scenarios.build_histories():
+        if not isinstance(s_or_exc, Exception):
+            systems.append(s_or_exc)
     cases, structs = [], set()
     for i, s in enumerate(systems):
         s2, exc = None, None
@@ -304,6 +309,15 @@ def run_c16(ctx):
                                     acc_only_paths=True)
         res.extra["graph_replay"] = gst
         del edges, nodes
+        # hand-built edit histories with analyses in between (harness/scenarios.py)
+        import scenarios
+        with rec.paused():
+            for name, s_or_exc, kw in scenarios.build_histories():
+                if isinstance(s_or_exc, Exception):
+                    cases.append({"id": len(cases), "clause": "C16.ReportsSucceed.Build", "kind": "digest", "exact": True, "what": "scenario " + name,
+                                  "a": "ok", "b": "exc:" + type(s_or_exc).__name__, "outcome": "", "exc": "", "st": None})
+                else:
+                    c16_cases(s_or_exc, cases, "scenario " + name, rng)
     finally:
         rec.uninstall()
     traces = rec.dump()
@@ -391,6 +405,28 @@ def batt_cases(ctx, n_sys, faults):
         for f in ([None] + ([("deplete", 2)] if faults else [])):
             p, d = drv_batt.numeric_model("sag", 0.05, 3.9, 0.15, rng)
             cases.append(drv_batt.run_batt(copy_system(s0), "bat", 3.0, p, d, len(cases), fail_at=f))
+    except Exception:
+        pass
+    # fixed scenarios: the battery addressed through its rail name, where that rail name is contained in the rail names of
+    # components declared before it (another source; a regulator) - a reference resolves by equality, never by containment
+    try:
+        with warnings.catch_warnings():
+            warnings.simplefilter("ignore")
+            for first_is_source in (True, False):
+                if first_is_source:
+                    s1 = System("rails", C.Source("rtc", vo=3.0, rs=0.2), rail="VBAT_RTC")
+                    s1.add_comp("VBAT_RTC", comp=C.ILoad("clock", ii=2e-3))
+                    s1.add_source(C.Source("cell", vo=3.8, rs=0.05), rail="VBAT")
+                else:
+                    s1 = System("rails", C.Source("usb", vo=5.0))
+                    s1.add_comp("usb", comp=C.Converter("pre", vo=4.2, eff=0.9), rail="VBAT_SW")
+                    s1.add_comp("VBAT_SW", comp=C.ILoad("led", ii=5e-3))
+                    s1.add_source(C.Source("cell", vo=3.8, rs=0.05), rail="VBAT")
+                s1.add_comp("VBAT", comp=C.LinReg("ldo", vo=3.0, vdrop=0.2, ig=1e-5), rail="V3")
+                s1.add_comp("V3", comp=C.PLoad("radio", pwr=0.15))
+                for f in ([None] + ([("deplete", 1)] if faults else [])):
+                    p, d = drv_batt.numeric_model("sag", 0.02, 3.9, 0.1, rng)
+                    cases.append(drv_batt.run_batt(copy_system(s1), "VBAT", 3.0, p, d, len(cases), fail_at=f))
     except Exception:
         pass
     for st in behs:
